@@ -19,7 +19,7 @@ T == ndJsonDeserialize(IOEnv.TRACE_FILE)
 VARIABLES tid, i, occ, viol
 vars == <<tid, i, occ, viol>>
 
-Req(e)  == [path |-> SeqRange(e.path), slots |-> e.slots, nbWl |-> e.nbWl, pcm |-> e.pcm, pre |-> e.pre]
+Req(e)  == [path |-> SeqRange(e.path), slots |-> e.slots, bw |-> e.bw, rate |-> e.rate, spacing |-> e.spacing, pre |-> e.pre]
 Obs(e)  == [st |-> e.st, nm |-> e.nm]
 IvSet(iv) == UNION {(iv[k][1])..(iv[k][2]) : k \in 1..Len(iv)}
 
@@ -39,7 +39,7 @@ StepClauses(oc, e) ==
       \cup (IF e.st = "served" /\ \E a, b \in J : a < b /\ R(a) \cap R(b) # {} THEN {"NoDoubleBooking"} ELSE {})
       \cup (IF e.st = "served" /\ \E j \in J : \E k \in R(j) : k < IdxMin \/ k > IdxMax \/ k \notin Slots
             THEN {"InsideBandAndGuards"} ELSE {})
-      \cup (IF e.st = "served" /\ SumM(nm) < t.nbWl * t.pcm THEN {"EnoughSlots"} ELSE {})
+      \cup (IF e.st = "served" /\ SumM(nm) < NbWl(t) * Pcm(t) THEN {"EnoughSlots"} ELSE {})
       \cup (IF e.st = "served" /\ (\E j \in J : ~\E s \in SeqRange(t.slots) :
                                       (s.n = NONE \/ s.n = nm[j].n) /\ (s.m = NONE \/ s.m = nm[j].m))
             THEN {"UserFixedHonouredOrBlocked"} ELSE {})
